@@ -66,6 +66,9 @@ def run(rep, tier, seed, replay=None):
         bad = H.placement_k(rep, 'C05', binp, seed + 505, 12000 if escalate else 2500, kind=1)
     rep.cov['engine_histories_distinct'] = eng_distinct
     rep.cov['samples'] = rep.cov.get('samples', []) + eng_samples
+    # ---- K3: block containers with absolute / hidden children interleaved, vs the block model the new theorems are about
+    if not replay:
+        H.block_k(rep, 'C05', binp, seed + 550, 2400 if escalate else 600)
     for t in THEOREMS:
         rep.cov['samples'].append({'theorem': t})
     # ---- search: metamorphic oracle on the implementation
